@@ -67,9 +67,15 @@ def build_coq(targets=None):
 # running the implementation
 # --------------------------------------------------------------------------------------------
 
+def _limit_memory():
+    # a call that allocates without bound must kill its own harness process (reported as a crash), not the machine
+    import resource
+    resource.setrlimit(resource.RLIMIT_AS, (6 << 30, 6 << 30))
+
+
 def _run_chunk(fam, lines, timeout):
     p = subprocess.run([os.path.join(TARGET, "debug", fam)], input="\n".join(lines) + "\n", stdout=subprocess.PIPE,
-                       stderr=subprocess.PIPE, text=True, timeout=timeout)
+                       stderr=subprocess.PIPE, text=True, timeout=timeout, preexec_fn=_limit_memory)
     out = [l for l in p.stdout.split("\n") if l.strip()]
     res = []
     for l in out:
